@@ -8,7 +8,7 @@ reg(Prop(
      # iostream, locale, codecvt, the extern-template std::string members - is not ASan-instrumented)
      Harness('c12_stream_memcheck', src=['c12_stream.cpp'], cfg='plain', runner='valgrind', tiers=('thorough',), parts=16,
              run_tier='quick', alarm=900)],
-    rule='A case is one text: every text over {a, newline, space, tab} up to length 7 (char) / 6 (wchar_t) in quick and 10 / 9 in '
+    rule='A case is one text: every text over {a, newline, space, tab} up to length 7 (char) / 6 (wchar_t) in quick and 12 / 10 in '
          'thorough (exhaustive), plus seeded random texts up to 60 (200 over a file stream) characters incl. CR. Per text: forward pass saving '
          'the position at every offset and reading past the end twice; for every saved position restore (directly after a failed read at end of '
          'input), compare get_position and read to the end; a double restore; seeded random interleavings of get_char/get_position/set_position; '
@@ -19,5 +19,5 @@ reg(Prop(
         'set_position is only called with positions previously returned by get_position on the same stream (documented precondition)',
         'failing streams are judged with the caller\'s stream exceptions() left at the default (off)'],
     exhaustive_spaces=['quick: all texts over {a,\\n,space,tab} of length <= 7 (char) and <= 6 (wchar_t)',
-                       'thorough: length <= 10 (char) and <= 9 (wchar_t)'],
+                       'thorough: length <= 12 (char, the bound the property names) and <= 10 (wchar_t)'],
 ))
